@@ -837,10 +837,12 @@ class Prog:
             e = nt.meth[meth]
             x = self.var(env)
             L.append(ind + "%s := %sNew%s()" % (x, Q.ref(p), tn))
-            modes = ["direct", "expr", "go", "defer"]
+            modes = ["direct", "go", "defer"]
             key = ("conc", tn, meth)
             if self.bound_ok(Q, key, p.path):
                 modes += ["bound", "bound", "gobound", "deferbound"]
+            if self.bound_ok(Q, key + ("thunk",), p.path):
+                modes += ["expr", "expr"]      # method expression: go/ssa makes a $thunk wrapper, named like $bound
             self.call_modes(L, ind, env, str(e.id), x, meth, rtype(("n", nt), Q), "&" + x, meth == "P", modes, Q)
             L.append(ind + "_ = %s" % x)
             self.feat("use:meth")
@@ -914,9 +916,11 @@ class Prog:
             q = self.var(env, "q")
             gt = "%sG[%s]" % (Q.ref(op), rtype(X, Q))
             L.append(ind + "var %s %s" % (q, gt))
-            modes = ["direct", "expr", "go", "defer"]
+            modes = ["direct", "go", "defer"]
             if self.bound_ok(Q, ("gen", "G", tkey(X), meth), op.path):
                 modes += ["bound", "gobound", "deferbound"]
+            if self.bound_ok(Q, ("gen", "G", tkey(X), meth, "thunk"), op.path):
+                modes += ["expr"]
             self.call_modes(L, ind, env, str(want), q, meth, gt, "&" + q, meth == "P", modes, Q)
             L.append(ind + "_ = %s" % q)
             self.feat("use:gmeth")
